@@ -236,6 +236,12 @@ func GenSession(r *rand.Rand, tier string) (Session, int) {
 		s.WrapEvery = 20 + r.Intn(60)
 		s.Wrap = []string{"\r\n", " \r", "\r\n..."}[r.Intn(3)]
 	}
+	// a right margin that falls inside even the shortest commands ("ls", "pwd" behind a long prompt)
+	shortWrap := !s.Exact && !s.PerOp && r.Intn(12) == 0
+	if shortWrap {
+		s.WrapEvery = 1 + r.Intn(2)
+		s.Wrap = []string{"\r\n", " \r"}[r.Intn(2)]
+	}
 	n := 1 + r.Intn(8)
 	big := r.Intn(15) == 0
 	s.Huge = !big && r.Intn(25) == 0
@@ -269,6 +275,9 @@ func GenSession(r *rand.Rand, tier string) (Session, int) {
 			cl = 1
 		case 1:
 			cl = 200 + r.Intn(400) // long command: the input-length dependent window
+		}
+		if shortWrap {
+			cl = 2 + r.Intn(3)
 		}
 		body := strings.TrimLeft(randStr(r, bodyAlpha, cl-1), " ")
 		txt := body + string(termChars[terms[i%len(terms)]])
@@ -339,7 +348,7 @@ func GenSession(r *rand.Rand, tier string) (Session, int) {
 			if 2*len(c.Text) > depth {
 				depth = 2 * len(c.Text)
 			}
-			if len(s.Prompt)+len(c.Text)+over+2 > depth || over*2 >= len(c.Text) {
+			if len(s.Prompt)+len(c.Text)+over+2 > depth || (over*2 >= len(c.Text) && 2*len(c.Text)+over >= s.PSD) {
 				s.WrapEvery, s.Wrap = 0, ""
 				break
 			}
@@ -768,6 +777,13 @@ func RunSession(s Session, h *Hooks) mon.Result {
 		fmt.Sprintf("returnchar=%q", s.ReturnChar), fmt.Sprintf("wrap=%q", s.Wrap), fmt.Sprintf("psd_is_minimal=%v", s.PSD < 1000))
 	if s.LateEcho > 0 {
 		obs["sessions_with_an_echo_delivered_3s_late"]++
+	}
+	if s.WrapEvery > 0 && s.WrapEvery <= 2 {
+		for _, c := range s.Cmds {
+			if len(c.Text) >= 2 && len(c.Text) <= 4 && len(c.Text) > s.WrapEvery {
+				obs["commands_of_2_to_4_bytes_with_a_wrap_inside_their_echo"]++
+			}
+		}
 	}
 	if s.Seg.Mode == "tailfill" {
 		obs["sessions_whose_bursts_end_in_a_read_filled_to_the_brim"]++
